@@ -1,6 +1,6 @@
 (* Instances of AgreePG.primitive_generic_agree:
    - single / complete over any carrier with a strict weak order;
-   - all methods but Ward over exact rationals with the infinite sentinel. *)
+   - all seven methods over exact rationals with the infinite sentinel. *)
 Require Import KV.Model.Prelude KV.Model.Condensed KV.Model.Active KV.Model.Dendrogram KV.Model.Methods KV.Model.State
   KV.Model.Primitive KV.Model.Generic
   KV.Proofs.ShapeCheck KV.Proofs.RelabelWF KV.Proofs.PrimitiveGreedy KV.Proofs.PrimitiveWF KV.Proofs.UpdateSpec KV.Proofs.SortProofs KV.Proofs.LWInvariant
@@ -39,7 +39,7 @@ Proof.
   - intros va vb md sa sb sx Ha Hb _. destruct Hm as [-> | ->]; cbn [kops_of k_upd k_ltb k_max] in *; cbn.
     + destruct (f_ltb F va vb); assumption.
     + destruct (f_ltb F vb va); assumption.
-  - intros _ va vb md sa sb sx _. destruct Hm as [-> | ->]; cbn [kops_of k_upd k_ltb]; cbn.
+  - intros _ va vb md sa sb sx _ _ _. destruct Hm as [-> | ->]; cbn [kops_of k_upd k_ltb]; cbn.
     + destruct (f_ltb F va vb); [left|right]; apply ltb_irrefl.
     + destruct (f_ltb F vb va); [left|right]; apply ltb_irrefl.
   - intros Ht va vb md sa sb sx. destruct Hm as [-> | ->]; [discriminate|]. cbn [kops_of k_upd k_ltb]; cbn.
@@ -58,7 +58,6 @@ Section QIAgree.
 Variable p : profile.
 Variable rt : Q -> Q.
 Variable meth : method.
-Hypothesis not_ward : meth <> Ward.
 
 Notation KI := (kops_of (QI rt) meth).
 
@@ -73,7 +72,7 @@ Theorem QI_primitive_generic_agree s1 d1 s2 d2 (mq : list Q) (n : N) sp dp mp sg
 Proof.
   intros HM0 Hp Hg HTF.
   apply (@primitive_generic_agree qi KI p meth qi_irrefl qi_trans qi_negtrans qi_eqb_refl qi_eqb_le (@KI_upd_below rt meth)
-           (@KI_rename_reducible rt meth not_ward) (@KI_untracked_grows rt meth not_ward)
+           (@KI_rename_reducible rt meth) (@KI_untracked_grows rt meth)
            ltac:(intros E va vb md sa sb sa' sb' sx; cbn [kops_of k_upd]; destruct meth; try discriminate; reflexivity)
            s1 d1 s2 d2 (map Some mq) n sp dp mp sg dg mg M0 (squares_some rt meth mq) HM0 Hp Hg HTF).
 Qed.
